@@ -40,7 +40,7 @@ def slash_variants(rng, op):
 
 
 def canonical_target(rng, exprs):
-    t = gen_repo.gen_target(rng, exprs)
+    t = gen_repo.gen_target(rng, exprs, raw=True)
     return t
 
 
